@@ -226,16 +226,29 @@ def _true_loop_one(c, uid):
 def once_in_cycle_source(c, uid):
   n = c.randint(2, 4)
   k = c.randrange(n)
-  L = ["from pymtl3 import *", "", "class Top_%s(Component):" % uid, "  def construct(s):",
-       "    s.in0 = InPort(Bits8)"]
+  L = ["from pymtl3 import *", ""]
+  via = c.choice(["flat", "flat", "net", "child"])
+  if via == "child":
+    # one stage of the ring lives in a sub-component: the cycle runs through generated net blocks
+    L += ["class St_%s(Component):" % uid, "  def construct(s):", "    s.a = InPort(Bits8)", "    s.b = InPort(Bits8)",
+          "    s.o = OutPort(Bits8)", "    @update", "    def up_st():", "      s.o @= s.a | s.b", ""]
+  L += ["class Top_%s(Component):" % uid, "  def construct(s):", "    s.in0 = InPort(Bits8)"]
   for i in range(n):
     L.append("    s.x%d = Wire(Bits8)" % i)
+    if via == "net":
+      L.append("    s.y%d = Wire(Bits8)" % i)
+      L.append("    s.y%d //= s.x%d" % (i, i))
+  if via == "child":
+    j = c.choice([i for i in range(n) if i != k])
+    L += ["    s.st = St_%s()" % uid, "    s.st.a //= s.x%d" % ((j - 1) % n), "    s.st.b //= s.in0", "    s.x%d //= s.st.o" % j]
   order = list(range(n))
   c.shuffle(order)
   for i in order:
+    if via == "child" and i == j:
+      continue
     L.append("    @update_once" if i == k else "    @update")
     L.append("    def up%d():" % i)
-    L.append("      s.x%d @= s.x%d | s.in0" % (i, (i - 1) % n))
+    L.append("      s.x%d @= s.%s%d | s.in0" % (i, "y" if via == "net" else "x", (i - 1) % n))
   return "\n".join(L) + "\n"
 
 
